@@ -14,6 +14,11 @@
 (*   "journal"             (ExtractorCompactorBackup::record_segment:      *)
 (*                          un-synced append, entries carry no validity    *)
 (*                          mark: a zero-filled tail reads as segment 0)   *)
+(*   "journal_save"        (ExtractorCompactorBackup::save: the journal is *)
+(*                          truncated and rewritten in place, no fsync)    *)
+(*   "disk_nosync"         (DiskCache::put without the per-file fsync: not *)
+(*                          the current code; what a cache relying on the  *)
+(*                          periodic background sync would do)             *)
 (* - these counterexamples are CANDIDATE findings; what counts is the real *)
 (* code on the scenarios that T_CrashFS derives from its real system calls.*)
 (* "lru_fixed" is the repair of the checkpoint (temp file + fsync + rename, *)
@@ -30,7 +35,7 @@
 (***************************************************************************)
 EXTENDS FS
 
-CONSTANTS Routine,    \* "index" "res" "lru" "lru_inplace" "lru_fixed" "disk" "journal" "journal_fixed"
+CONSTANTS Routine,    \* "index" "res" "lru" "lru_inplace" "lru_fixed" "disk" "disk_nosync" "journal" "journal_fixed" "journal_save"
           MaxSaves,   \* saves per behaviour; a crash may hit any of them (0..MaxSaves-1 prior saves)
           Strict      \* TRUE: DirOpsPrefix crash model (informational)
 
@@ -53,6 +58,7 @@ ESync(x) == [op |-> "fsync", name |-> x]
 ERename(a, b) == [op |-> "rename", from |-> a, to |-> b]
 EUnlink(x) == [op |-> "unlink", name |-> x]
 EMkdir(x) == [op |-> "mkdir", name |-> x]
+EUtime(x, tag) == [op |-> "utime", name |-> x, src |-> tag]
 
 \* complete content of save k in file role x: two writes (2 + 1 "bytes")
 Complete(k, x) == <<Ext(Src(k, x, 1), 0, 2), Ext(Src(k, x, 2), 0, 1)>>
@@ -78,7 +84,17 @@ Protocols(k, f) ==
     [] Routine = "res" -> {Atomic(k, "db", "key_state.tmp", "key_state")}
     [] Routine = "disk" ->
          \* put -> get_file_path (create_dir_all of the two hash levels) -> write_file (unique temp name)
-         {(IF k = 1 THEN <<EMkdir("ab"), EMkdir("ab/cd")>> ELSE <<>>) \o Atomic(k, "e", "ab/cd/e." \o NumStr(k) \o ".tmp", "ab/cd/e")}
+         \* the expiry time is stored as the temp file's modification time before the fsync
+         (LET tmp == "ab/cd/e." \o NumStr(k) \o ".tmp" IN
+          {(IF k = 1 THEN <<EMkdir("ab"), EMkdir("ab/cd")>> ELSE <<>>)
+             \o <<EOpen(tmp, TRUE, TRUE)>> \o WriteAll(k, "e", tmp)
+             \o <<EUtime(tmp, Src(k, "e", 9)), ESync(tmp), ERename(tmp, "ab/cd/e")>>})
+    [] Routine = "disk_nosync" ->
+         \* the same without the fsync (what a cache that relies on a periodic global sync would do)
+         (LET tmp == "ab/cd/e." \o NumStr(k) \o ".tmp" IN
+          {(IF k = 1 THEN <<EMkdir("ab"), EMkdir("ab/cd")>> ELSE <<>>)
+             \o <<EOpen(tmp, TRUE, TRUE)>> \o WriteAll(k, "e", tmp)
+             \o <<EUtime(tmp, Src(k, "e", 9)), ERename(tmp, "ab/cd/e")>>})
     [] Routine = "lru" ->
          \* bump_generation + checkpoint_to_disk: tokio::fs::write(new generation); remove_file(previous)
          {<<EOpen(Lru(k), TRUE, TRUE)>> \o WriteAll(k, "lru", Lru(k)) \o (IF k > 1 THEN <<EUnlink(Lru(k - 1))>> ELSE <<>>)}
@@ -92,6 +108,10 @@ Protocols(k, f) ==
          {<<EOpen("extract_bu", TRUE, FALSE)>>
             \o (IF k = 1 THEN <<EWrite("extract_bu", 0, 1, "hdr:v"), EWrite("extract_bu", 1, 1, "hdr:max")>> ELSE <<>>)
             \o <<EWrite("extract_bu", 2 * k, 2, Src(k, "seg", 1))>>}
+    [] Routine = "journal_save" ->
+         \* ExtractorCompactorBackup::save: File::create (truncate in place), header, all entries, no fsync
+         {<<EOpen("extract_bu", TRUE, TRUE), EWrite("extract_bu", 0, 1, "hdr:v"), EWrite("extract_bu", 1, 1, "hdr:max")>>
+            \o [i \in 1..k |-> EWrite("extract_bu", 2 * i, 2, Src(i, "seg", 1))]}
     [] Routine = "journal_fixed" ->
          \* read the journal, write header + old entries + the new entry to a temp file, fsync, rename
          {<<EOpen("extract_bu.tmp", TRUE, TRUE), EWrite("extract_bu.tmp", 0, 1, "hdr:v"), EWrite("extract_bu.tmp", 1, 1, "hdr:max")>>
@@ -103,6 +123,7 @@ Protocols(k, f) ==
 (***************************************************************************)
 Names(d) == {r.name : r \in d.files}
 File(d, x) == (CHOOSE r \in d.files : r.name = x).parts
+FileMt(d, x) == (CHOOSE r \in d.files : r.name = x).mt
 
 LruGens(d) == {k \in 1..MaxSaves : Lru(k) \in Names(d)}
 MaxGen(d) == CHOOSE k \in LruGens(d) : \A j \in LruGens(d) : j <= k
@@ -125,12 +146,16 @@ Recover(d) ==
          [b \in {"b1", "b2"} |-> IF (b \o ".idx") \in Names(d) THEN StateOf(File(d, b \o ".idx"), b) ELSE 0]
     [] Routine = "res" ->
          [o \in {"db"} |-> IF "key_state" \in Names(d) THEN StateOf(File(d, "key_state"), "db") ELSE 0]
-    [] Routine = "disk" ->
-         [o \in {"e"} |-> IF "ab/cd/e" \in Names(d) THEN StateOf(File(d, "ab/cd/e"), "e") ELSE 0]
+    [] Routine \in {"disk", "disk_nosync"} ->
+         \* get on a new instance: the file under the key's name; its modification time is the expiry
+         \* (a file that carries its write time has expired: the entry is gone, neither old nor new)
+         [o \in {"e"} |-> IF "ab/cd/e" \notin Names(d) THEN 0
+                          ELSE LET st == StateOf(File(d, "ab/cd/e"), "e")
+                               IN IF st # Broken /\ FileMt(d, "ab/cd/e") = Src(st, "e", 9) THEN st ELSE Broken]
     [] Routine \in {"lru", "lru_inplace", "lru_fixed"} ->
          \* find_latest_lru_file + load_from_disk: highest generation, MD5 must match
          [o \in {"lru"} |-> IF LruGens(d) = {} THEN 0 ELSE StateOf(File(d, Lru(MaxGen(d))), "lru")]
-    [] Routine \in {"journal", "journal_fixed"} ->
+    [] Routine \in {"journal", "journal_fixed", "journal_save"} ->
          [o \in {"journal"} |-> IF "extract_bu" \in Names(d) THEN JournalState(File(d, "extract_bu")) ELSE 0]
 
 (***************************************************************************)
